@@ -203,6 +203,27 @@ func c09Ops() []c09Op {
 				UpdateMask: &fieldmaskpb.FieldMask{Paths: []string{"labels", "message_retention_duration"}}})
 			return err
 		}},
+		{name: "update-subscription-policies", class: "unit", run: func(ctx context.Context, st *c09State) error {
+			// the mask paths that look other rows up (dead-letter topic) or feed background services (push endpoint)
+			_, err := st.e.Sub.UpdateSubscription(ctx, &pubsubpb.UpdateSubscriptionRequest{Subscription: &pubsubpb.Subscription{Name: c9S1, Filter: `attributes:a`, EnableMessageOrdering: true,
+				DeadLetterPolicy: &pubsubpb.DeadLetterPolicy{DeadLetterTopic: c9TDL, MaxDeliveryAttempts: 7},
+				RetryPolicy:      &pubsubpb.RetryPolicy{MinimumBackoff: durationpb.New(3 * time.Second), MaximumBackoff: durationpb.New(30 * time.Second)},
+				ExpirationPolicy: &pubsubpb.ExpirationPolicy{Ttl: durationpb.New(48 * time.Hour)},
+				PushConfig:       &pubsubpb.PushConfig{PushEndpoint: "http://example.invalid/p2"}},
+				UpdateMask: &fieldmaskpb.FieldMask{Paths: []string{"filter", "enable_message_ordering", "dead_letter_policy", "retry_policy", "expiration_policy", "push_config"}}})
+			return err
+		}},
+		{name: "update-subscription-clear-policies", class: "unit", run: func(ctx context.Context, st *c09State) error {
+			_, err := st.e.Sub.UpdateSubscription(ctx, &pubsubpb.UpdateSubscriptionRequest{Subscription: &pubsubpb.Subscription{Name: c9S3},
+				UpdateMask: &fieldmaskpb.FieldMask{Paths: []string{"dead_letter_policy", "retry_policy", "labels"}}})
+			return err
+		}},
+		{name: "create-push-subscription", class: "unit", run: func(ctx context.Context, st *c09State) error {
+			_, err := st.e.Sub.CreateSubscription(ctx, &pubsubpb.Subscription{Name: "projects/p/subscriptions/newpush", Topic: c9T, EnableMessageOrdering: true,
+				PushConfig: &pubsubpb.PushConfig{PushEndpoint: "http://example.invalid/p"}, Labels: map[string]string{"k": "v"},
+				RetryPolicy: &pubsubpb.RetryPolicy{MinimumBackoff: durationpb.New(time.Second)}, MessageRetentionDuration: durationpb.New(time.Hour)})
+			return err
+		}},
 		{name: "delete-subscription", class: "unit", run: func(ctx context.Context, st *c09State) error {
 			_, err := st.e.Sub.DeleteSubscription(ctx, &pubsubpb.DeleteSubscriptionRequest{Subscription: c9S1})
 			return err
